@@ -188,15 +188,29 @@ def run(ctx):
             ms = f.calls("memset")
             ok_err = len(ms) == 1 and core(arg_nodes(ms[0])[1]).get("v") == 0 and core(arg_nodes(ms[0])[2]).get("k") == "sizeof" and \
                 cfg.dominated_by(f, cfg.pos_of(f, x), lambda p, e: cfg.elem_node(f, e) is ms[0])[0]
-        else:
-            im = f.calls("FileInfo::isMissing")
-            ok_fix = len(im) >= 1 and cfg.dominated_by(f, cfg.pos_of(f, x), lambda p, e: cfg.elem_node(f, e) is im[0])[0]
-            # on the sentinel branch some field is made non-zero
-            fix = [n for n in f.nodes if n.get("k") == "bin" and n["op"] == "=" and (bf.at_node(n) or frozenset()) and
-                   any(p and "isMissing" in a for a, p in bf.at_node(n))]
-            ok_fix = ok_fix and any(core(n.child("r")).get("k") == "int" and core(n.child("r"))["v"] != 0 for n in fix)
+    # An existing object must never compare equal to the missing record.  Equality looks at device, inode, size, modTime and checksum — not at
+    # the mode — and the device-agnostic wrapper zeroes device and inode.  So what has to be non-zero for every existing object is (size, modTime):
+    # walk the success path with size == 0 and modTime == 0.0 but device / inode / mode non-zero; it must pass a store of a non-zero constant
+    # into size or modTime before returning.
+    env = {}
+    res = "result"
+    for fld, zero in (("size", True), ("modTime.seconds", True), ("modTime.nanoseconds", True), ("device", False), ("inode", False), ("mode", False)):
+        for pre in ("", "this->", res + "."):
+            for key in ("(%s%s == 0)" % (pre, fld), "(0 == %s%s)" % (pre, fld)):
+                env[key] = zero
+    for key in ("(statResult == 0)", "(0 == statResult)"):
+        env[key] = True
+    fixes = set()
+    for n in f.nodes:
+        if n.get("k") == "bin" and n["op"] in ("=", "|=", "+=") and core(n.child("r")) is not None and core(n.child("r")).get("k") == "int" and core(n.child("r")).get("v"):
+            l_ = expr_str(n.child("l"))
+            if l_.endswith(".size") or ".modTime." in l_:
+                fixes.add(cfg.pos_of(f, n))
+    w = cfg.reach_under(f, env, lambda p, e: e == "EXIT", lambda p, e: p in fixes)
+    ok_fix = w is None and bool(fixes)
     r.check(ok_err, "getInfoForPath|error-returns-zero-record", "", "stat failure does not return the zeroed record", f)
-    r.check(ok_fix, "getInfoForPath|sentinel-fixup", "", "an existing object can be returned as the all-zero record", f)
+    r.check(ok_fix, "getInfoForPath|sentinel-fixup", "%d fix-up store(s)" % len(fixes), "an existing empty object whose modification time is 0.0 is returned with size and time all zero: with device and "
+            "inode cleared by the device-agnostic wrapper (the mode is not compared) it equals the missing record", f)
     # fact-based (ternary or if/else alike): lstat is reached exactly when asLink holds, stat exactly when it does not
     ls_ = [c for c in f.calls() if c.get("k") == "call" and (c.get("fn") or "").split("::")[-1] == "lstat"]
     st_ = [c for c in f.calls() if c.get("k") == "call" and (c.get("fn") or "").split("::")[-1] == "stat"]
@@ -216,14 +230,25 @@ def run(ctx):
         for meth in ("getFileInfo", "getLinkInfo"):
             f = prog.fn("llbuild::basic::%s::%s" % (cls, meth))
             z, a_ = set(), set()
-            for n in f.nodes:
+            # the record's fields may be written in a helper of the class that is handed `info` by reference: its writes count, with the
+            # helper's parameter standing for `info`
+            sources = [(f, "info")]
+            for c in f.calls():
+                h = prog.functions.get(c.get("fk")) if c.get("k") == "call" and c.get("fk") else None
+                if h is None or h is f or h.is_lambda or relpath(h.file) != relpath(f.file):
+                    continue
+                for i_, a0 in enumerate(arg_nodes(c)):
+                    if a0 is not None and expr_str(core(a0)) == "info" and i_ < len(h.params) and "&" in h.db_types[h.params[i_]["t"]] and "const" not in h.db_types[h.params[i_]["t"]]:
+                        sources.append((h, h.params[i_]["n"]))
+            for g_, recv in sources:
+              for n in g_.nodes:
                 tgt = None
                 val = None
                 if n.get("k") == "bin" and n["op"] == "=":
                     tgt, val = n.child("l"), core(n.child("r"))
                 elif n.get("k") == "call" and n.get("op") == "=" and "obj" in n:
                     tgt, val = n.child("obj"), core(arg_nodes(n)[0]) if arg_nodes(n) else None
-                if tgt is None or not expr_str(tgt).startswith("info."):
+                if tgt is None or not expr_str(tgt).startswith(recv + "."):
                     continue
                 fld = expr_str(tgt).split(".")[-1]
                 if val is not None and (val.get("k") == "int" and val.get("v") == 0 or val.get("k") in ("construct", "zeroinit", "initlist") and
